@@ -49,6 +49,8 @@ def run_algo_task(task, make_oracles, nontrivial=None, learner_classes=None, on_
     dl = None
     if task.get("time_cap"):
         dl = time.time() + task["time_cap"]
+    if task.get("deadline_abs"):
+        dl = min(dl, task["deadline_abs"]) if dl else task["deadline_abs"]
     run_enumeration(task["cfg"], task["T"], reward_fn_of(task), make_oracles, st, prefix=task.get("prefix", ()),
                     budget_kinds=bk, k=k, max_exec=task.get("max_exec"), deadline=dl,
                     learner_classes=learner_classes() if callable(learner_classes) else learner_classes,
